@@ -94,9 +94,9 @@ theorem lookup_written_noquote (g : Name) (c : CName) (h : lookupName g = some c
   · exact hg
 
 /-- the bytes of an encodable text, decoded by the same codec's incremental decoder at the end of the data -/
-theorem incOut_encode (c : CName) (x : List Nat) (h : (encScan c.kind x).2 = true) :
-    incOut c (c.bom ++ (encScan c.kind x).1) true = ⟨x, [], false⟩ := by
-  have hs := scan_encScan c.kind x (encScan c.kind x).1 true (by rw [← h])
+theorem incOut_encode_f (c : CName) (x : List Nat) (f : Bool) (h : (encScan c.kind x).2 = true) :
+    incOut c (c.bom ++ (encScan c.kind x).1) f = ⟨x, [], false⟩ := by
+  have hs := scan_encScan c.kind x (encScan c.kind x).1 f (by rw [← h])
   cases c with
   | plain k => simpa [incOut, sniff, CName.bom, CName.kind] using hs
   | u8sig =>
@@ -116,6 +116,9 @@ theorem incOut_encode (c : CName) (x : List Nat) (h : (encScan c.kind x).2 = tru
     have t3 : (bom32le ++ (encScan .u32le x).1).take 4 = bom32le := by simp [bom32le]
     have d3 : (bom32le ++ (encScan .u32le x).1).drop 4 = (encScan .u32le x).1 := by simp [bom32le]
     simp only [incOut, sniff, sniffBom, CName.bom, CName.kind, t3, if_true, d3, hs]
+
+theorem incOut_encode (c : CName) (x : List Nat) (h : (encScan c.kind x).2 = true) :
+    incOut c (c.bom ++ (encScan c.kind x).1) true = ⟨x, [], false⟩ := incOut_encode_f c x true h
 
 /-- … and by the stateless decoder `codecs.getdecoder(name)` -/
 theorem stateless_encode (c : CName) (x : List Nat) (h : (encScan c.kind x).2 = true) :
@@ -138,5 +141,48 @@ theorem stateless_encode (c : CName) (x : List Nat) (h : (encScan c.kind x).2 = 
     have t3 : (bom32le ++ (encScan .u32le x).1).take 4 = bom32le := by simp [bom32le]
     have d3 : (bom32le ++ (encScan .u32le x).1).drop 4 = (encScan .u32le x).1 := by simp [bom32le]
     simp only [stateless, bomScan, CName.bom, CName.kind, t3, if_true, d3, hs]
+
+/-- a rewritten text is accepted by the rewriter as it is -/
+theorem fixEncoding_twice (t g r : List Nat) (hq : ∀ c ∈ written g, c ≠ 0x22)
+    (h : fixEncoding t g false = some r) : fixEncoding r g false = some r := by
+  by_cases hl : t.length > 10
+  · by_cases hp : prefix10.isPrefixOf t = true
+    · cases hf : findQuote (t.drop 10) with
+      | none => simp [fixEncoding, hl, hp, hf] at h
+      | some k =>
+        obtain ⟨rr, hr⟩ := findQuote_drop _ _ hf
+        have e : r = prefix10 ++ written g ++ 0x22 :: rr := by
+          simp only [fixEncoding, hl, hp, hf, if_true, hr, written, Option.some.injEq] at h
+          exact h.symm
+        rw [e]
+        have l1 : (prefix10 ++ written g ++ 0x22 :: rr).length > 10 := by simp [prefix10]; omega
+        have l2 : prefix10.isPrefixOf (prefix10 ++ written g ++ 0x22 :: rr) = true := by
+          rw [List.isPrefixOf_iff_prefix, List.append_assoc]; exact List.prefix_append _ _
+        have l3 : (prefix10 ++ written g ++ 0x22 :: rr).drop 10 = written g ++ 0x22 :: rr := by
+          simp [prefix10]
+        simp only [fixEncoding, l1, l2, if_true, l3, findQuote_noquote _ hq]
+        simp [written]
+    · have : r = t := by simp [fixEncoding, hl, hp] at h; exact h.symm
+      rw [this]; simp [fixEncoding, hl, hp]
+  · have hnp : isPrefixOf10 t = false := by
+      cases hx : isPrefixOf10 t with
+      | false => rfl
+      | true => simp [fixEncoding, hl, hx] at h
+    have : r = t := by simp [fixEncoding, hl, hnp] at h; exact h.symm
+    rw [this]; simp [fixEncoding, hl, hnp]
+
+theorem fix_some_ne_nil (t g r : List Nat) (h : fixEncoding t g false = some r) : r ≠ [] := by
+  intro e
+  subst e
+  unfold fixEncoding at h
+  split at h
+  · split at h
+    · cases hf : findQuote (t.drop 10) with
+      | none => simp [hf] at h
+      | some k => simp [hf, prefix10] at h
+    · simp at h; subst h; simp at *
+  · split at h
+    · simp at h; subst h; simp [isPrefixOf10] at *
+    · cases h
 
 end CssVerif.Codec
